@@ -32,7 +32,7 @@ REAL = ["rpyc.core.vinegar dump/load", "rpyc.core.protocol.Connection (_box_exc/
         "rpyc.core.async_", "brine/channel/stream"]
 STUB = ["sockets/poll/time/locks (simulator)", "crafted payloads come from the scripted reference peer"]
 ASSUMPTIONS = ["CPython 3.12 built-in exception hierarchy", "an in-memory meta-path finder stands for an importable module on sys.path"]
-PROBES = ["c09:custom-real-class", "c09:custom-generic", "c09:import-performed", "c09:crafted-payload", "c09:traceback-denied", "c09:relayed-twice"]
+PROBES = ["c09:custom-real-class", "c09:custom-generic", "c09:import-performed", "c09:crafted-payload", "c09:traceback-denied", "c09:relayed-twice", "c09:class-replaced-under-same-name"]
 _CASES = None
 CHUNK = 20
 
@@ -162,6 +162,11 @@ def run_one(choices, params):
     sys.modules["c09known"] = known
     mods_before = set(sys.modules)
     current = {}
+    # process-wide memo tables of the exception rebuilder: every run starts from the same (empty) state
+    for cache_name in ("_exception_classes_cache", "_generic_exceptions_cache"):
+        cache = getattr(vinegar, cache_name, None)
+        if hasattr(cache, "clear"):
+            cache.clear()
 
     def main(sim, k):
         class SvcB(rpyc.Service):
@@ -190,7 +195,7 @@ def run_one(choices, params):
                     shp = arg_shapes(cls)
                     todo.append(("builtin", cls.__name__, shp[w.draw(len(shp))][0], w.draw(3), w.draw(4) == 0))
                 elif r < 9:
-                    todo.append(("custom", w.pick(("known", "lazy", "unknown", "known-notexc", "lazy-func", "unknown-shadow", "known-shadow")),
+                    todo.append(("custom", w.pick(("known", "lazy", "unknown", "known-notexc", "lazy-func", "unknown-shadow", "known-shadow", "known", "known-regen")),
                                  w.pick(("empty", "imm", "unser")), w.draw(3)))
                 else:
                     todo.append(("custom", "lazy", "imm", 0))
@@ -222,7 +227,11 @@ def run_one(choices, params):
                 else:
                     modname = "no.such.c09module"
                 # the sender's class only needs the claimed module and name
-                cls = known.Boom if cname == "known" else type(clsname, (Exception,), {"__module__": modname})
+                if cname == "known-regen":
+                    # the module was reloaded / the plug-in re-created: the name now designates a new class object
+                    known.Boom = type("Boom", (Exception,), {"__module__": "c09known", "__init__": known.Boom.__init__})
+                    sim.count("c09:class-replaced-under-same-name")
+                cls = known.Boom if cname in ("known", "known-regen") else type(clsname, (Exception,), {"__module__": modname})
                 exc = cls(*args)
                 del LOG[:]
                 info["special"] += 1
@@ -291,7 +300,7 @@ def run_one(choices, params):
                     raise v
             else:
                 real_ok = rcfg["instantiate_custom_exceptions"] and (
-                    cname == "known" or (cname == "lazy" and rcfg["import_custom_exceptions"]))
+                    cname in ("known", "known-regen") or (cname == "lazy" and rcfg["import_custom_exceptions"]))
                 if cname in ("known-notexc", "lazy-func") or cname.endswith("shadow"):
                     real_ok = False
                 if real_ok:
